@@ -12,9 +12,12 @@ import terms, mcx, lattice, vis, canon_run
 TAG_RE = re.compile(r"</?\s*(prosody|break|say-as|phoneme|mark|audio|voice|speak|silence|pitch|rate|volume|spell|pron|bookmark|emph|sub|s|p)\b[^>]*>", re.I)
 
 
-def dirty(s):
-    """-> list of (class, detail) for a string that is supposed to be clean speech text"""
+def dirty(s, engine=False):
+    """-> list of (class, detail) for a string that is supposed to be clean speech text (with an engine selected markup is expected:
+    the tags are taken out first and only the marker clauses are judged - the markup itself belongs to C13)"""
     out = []
+    if engine:
+        s = re.sub(r"<[^<>]*>", " ", s)
     for c in s:
         o = ord(c)
         if 0xE000 <= o <= 0xF8FF or 0xF0000 <= o <= 0x10FFFF:
@@ -86,6 +89,9 @@ PREF_SETS = [
     [["pref", "Bookmark", "true"]],
     [["pref", "Pitch", "20"], ["pref", "Rate", "250"], ["pref", "Volume", "50"], ["pref", "PauseFactor", "300"], ["pref", "MathRate", "150"]],
     [["pref", "Bookmark", "true"], ["pref", "CapitalLetters_Pitch", "30"], ["pref", "CapitalLetters_Beep", "true"], ["pref", "MathRate", "50"], ["pref", "PauseFactor", "0"]],
+    # a speech engine selected: the marker clauses hold for every engine (the final clean-up of the text runs after the engine's tags are in)
+    [["pref", "TTS", "SSML"]],
+    [["pref", "TTS", "SAPI5"], ["pref", "CapitalLetters_Pitch", "30"]],
 ]
 
 
@@ -96,6 +102,7 @@ def work(item):
     ops = [[["mathml", terms.doc(t)], ["speech"], ["overview"], ["nav", "ZoomIn"], ["nav", "MoveNext"], ["nav", "ReadCurrent"], ["nav", "DescribeCurrent"]] for _, t in cases]
     _, res = mc.run_cases(setup, ops)
     pn = "+".join(p[1] for p in prefs) or "default"
+    engine = any(p[1] == "TTS" and p[2] != "none" for p in prefs)
     viol, counts, nontriv = [], {"evaluations": 0, "skipped_panics": 0, "rejected": 0, "strings_checked": 0}, []
     for (label, t), r in zip(cases, res):
         counts["evaluations"] += 1
@@ -118,12 +125,12 @@ def work(item):
                 nontriv.append(hash((lang, style, verb, pn, s)))
                 if visible and not s.strip():
                     viol.append((f"C05|empty-speech|{lang}|{style}|{lc}", f"[{lang}/{style}/{verb} {pn}] {label}: speech is empty although the expression has visible content", replay))
-            for cls_, detail in dirty(s):
+            for cls_, detail in dirty(s, engine):
                 viol.append((f"C05|{cls_}|{getter}|{lang}|{style}|{lc}", f"[{lang}/{style}/{verb} {pn}] {label}: {getter} contains {cls_} {detail}: {s!r}", replay))
         for getter, x in zip(("nav:ZoomIn", "nav:MoveNext", "nav:ReadCurrent", "nav:DescribeCurrent"), r[3:]):
             if is_ok(x):
                 counts["strings_checked"] += 1
-                for cls_, detail in dirty(val(x)):
+                for cls_, detail in dirty(val(x), engine):
                     viol.append((f"C05|{cls_}|{getter}|{lang}|{style}|{lc}", f"[{lang}/{style}/{verb} {pn}] {label}: {getter} contains {cls_} {detail}: {val(x)!r}", replay))
     return viol, counts, nontriv
 
@@ -248,7 +255,10 @@ def main(tier):
         ])]
         for prefs in PREF_SETS[1:]:
             for style in lattice.styles(lang):
-                jobs.append((lang, style, "Medium", prefs, small + caps))
+                engine_set = any(p_[1] == "TTS" for p_ in prefs)          # with an engine: every spine term to depth 2 (wording that only deeper terms trigger)
+                cs_ = (list(corp) if engine_set else small) + caps
+                for i_ in range(0, len(cs_), 800):
+                    jobs.append((lang, style, "Medium", prefs, cs_[i_:i_ + 800]))
     run.count("table_characters", nchars)
     outs = []
     for _ in range(2):
@@ -270,7 +280,7 @@ def main(tier):
         rule="all spine terms of G to depth 2 and the trigger terms in all 45 language x style x verbosity configurations; single deviations "
              "(degenerate / invisible-operator children, insertions, deletions) of every depth-1 term (thorough: also of the trigger terms) in every language "
              "and style (quick: Terse and Verbose; thorough: all); one token context for every key of each language's unicode.yaml and unicode-full.yaml, and every single-character key as the whole expression (quick: at Terse) "
-             "(read with yaml-rust) and for characters in no table; the MathML inputs of the repository's own tests that contain no private-use characters (English: every style and verbosity; other languages: Medium; thorough: all); seven preference sets (capital letters, overrides, impairment, and the engine-only preferences Bookmark / Pitch / Rate / Volume / PauseFactor / MathRate / beep) on a reduced corpus. "
+             "(read with yaml-rust) and for characters in no table; the MathML inputs of the repository's own tests that contain no private-use characters (English: every style and verbosity; other languages: Medium; thorough: all); nine preference sets (SSML and SAPI5 selected - marker clauses only; capital letters, overrides, impairment, and the engine-only preferences Bookmark / Pitch / Rate / Volume / PauseFactor / MathRate / beep) on a reduced corpus. "
              "Per case: speech, overview and four navigation reads. distinct_nontrivial = distinct (configuration, speech) pairs",
         assumptions=["input alphabets contain no private-use characters, so documented pass-through of unknown characters cannot trip the check",
                      "navigation reads are checked for cleanliness only (they may legitimately fail or be empty)"],
